@@ -1569,8 +1569,11 @@ impl<'a, const C: usize, const R: usize, T: 'a + Copy + std::fmt::Debug> Layout<
         use crate::action::Action::*;
         let x = coord.0 as usize;
         let y = coord.1 as usize;
-        assert!(x <= self.layers[0].len());
-        assert!(y <= self.layers[0][0].len());
+        if x >= self.layers[0].len() || y >= self.layers[0][0].len() {
+            // Coordinates outside of the layer tables, e.g. the virtual coordinates of chords,
+            // have no layer position to fall through to.
+            return &NoOp;
+        }
         for layer in layer_stack {
             assert!(usize::from(layer) <= self.layers.len());
             let action = &self.layers[usize::from(layer)][x][y];
@@ -1622,11 +1625,15 @@ impl<'a, const C: usize, const R: usize, T: 'a + Copy + std::fmt::Debug> Layout<
                 self.rpt_action = Some(action);
             }
             Src => {
-                let action = &self.src_keys[usize::from(coord.1)];
                 // Risk: infinite recursive resulting in stack overflow.
                 // In practice this is not expected to happen.
                 // The `src_keys` actions are all expected to be `KeyCode` or `NoOp` actions.
-                self.do_action(action, coord, delay, is_oneshot, &mut std::iter::empty());
+                //
+                // Coordinates outside of `src_keys`, e.g. the virtual coordinates of chords,
+                // have no source key and do nothing.
+                if let Some(action) = self.src_keys.get(usize::from(coord.1)) {
+                    self.do_action(action, coord, delay, is_oneshot, &mut std::iter::empty());
+                }
             }
             Trans => {
                 // Transparent action should be resolved to non-transparent one near the top
